@@ -59,25 +59,76 @@ def _last_call(stderr_text):
                 m = re.search(r" at=(\S+) msg=(.*)$", l)
                 if m:
                     at = re.sub(r"-\d+(\.\d+)*/", "/", m.group(1))  # crate version out of registry paths
-                    panic = f"|panic@{at}:{m.group(2).strip()[:60]}"
+                    msg = m.group(2).strip().split(" steps=")[0][:70]
+                    panic = f"|panic@{at}:{msg}"
                 break
     return fn, label, panic
 
 
-def _rekey_crashes(res, layer):
-    """Turn the supervisor's generic crash|<kind>|? signatures into semantic ones (function | handle kind | abort class)."""
+def _open_case(journal):
+    open_idx = None
+    try:
+        for line in open(journal, errors="replace"):
+            try:
+                ev = json.loads(line)
+            except Exception:
+                continue
+            if ev.get("e") == "B":
+                open_idx = ev["i"]
+            elif ev.get("e") == "E":
+                open_idx = None
+    except OSError:
+        pass
+    return open_idx
+
+
+def _rekey_crashes(res, layer, scratch=None, label=None, replay_base=None):
+    """The supervisor files every worker death as crash|<kind>|<site>, and the site is '?' for an abort out of an
+    extern "C" function, so different deaths would share one signature. Rebuild them from the per-shard stderr
+    breadcrumbs: function in flight | handle kind | abort class | panic location and message."""
+    found = 0
+    labels = [label] if isinstance(label, str) else (label or [])
+    if scratch:
+        for jpath in sorted(j for lb in labels for j in glob.glob(os.path.join(scratch, f"journal-{lb}[0-9]*-*.jsonl"))):
+            idx = _open_case(jpath)
+            if idx is None:
+                continue
+            epath = jpath.replace("journal-", "stderr-").replace(".jsonl", ".txt")
+            try:
+                text = open(epath, errors="replace").read()
+            except OSError:
+                continue
+            tail = text[-6000:]
+            if "cannot unwind" in tail or "failed to initiate panic" in tail or "C19-PANIC" in tail[-1500:]:
+                kind = "abort-on-panic"
+            elif "AddressSanitizer" in tail:
+                continue  # counted from the ASan log files
+            elif "stack overflow" in tail or "overflowed its stack" in tail:
+                kind = "stack-overflow"
+            elif "memory allocation of" in tail:
+                kind = "alloc-abort"
+            else:
+                continue  # no banner: leave it to the generic entry (signal name) or the hang logic
+            fn, hl, panic = _last_call(tail)
+            rp = dict(replay_base or {})
+            rp["only"] = idx
+            res.add_violation(f"C19|no-crash|{fn}|{hl}|{kind}{panic}", f"[{layer}] the process aborted inside {fn} on a {hl} handle (case {idx})",
+                              {"stderr": tail[-1500:]}, rp)
+            found += 1
     for sig in list(res.violations.keys()):
         if not sig.startswith("crash|"):
             continue
         w = res.violations.pop(sig)
         n = res.viol_counts.pop(sig)
         kind = sig.split("|")[1]
+        if found and kind in ("SIGABRT", "abort-nounwind-panic", "alloc-abort", "stack-overflow"):
+            continue  # replaced by the entries above
         text = (w.get("detail") or {}).get("stderr", "")
-        fn, label, panic = _last_call(text)
-        new = f"C19|no-crash|{fn}|{label}|{kind}{panic}"
+        fn, hl, panic = _last_call(text)
+        new = f"C19|no-crash|{fn}|{hl}|{kind}{panic}"
         w = dict(w)
         w["sig"] = new
-        w["what"] = f"[{layer}] process died ({kind}) inside {fn} on a {label} handle; {w['what']}"
+        w["what"] = f"[{layer}] process died ({kind}) inside {fn} on a {hl} handle; {w['what']}"
         if new in res.violations:
             res.viol_counts[new] += n
         else:
@@ -257,7 +308,7 @@ def run(tier, seed, scratch, t0):
     b_single = sup.build("vh-ffi", "c19")
     b_threads = sup.build("vh-ffi", "c19_threads")
     sup.run_workers(res, b_single, [], tier, seed, scratch, nshards=16, case_timeout=90, label="st", total_timeout=3000)
-    _rekey_crashes(res, "native")
+    _rekey_crashes(res, "native", scratch, "st", {"property": PROP, "tier": tier, "seed": seed, "bin": "c19", "args": []})
     layers["native_single_thread"] = _layer_summary(res)
 
     # ---- native: threaded runs
@@ -265,7 +316,7 @@ def run(tier, seed, scratch, t0):
     n_thr = 300 if thorough else 24
     sup.run_workers(rt, b_threads, ["--count", str(n_thr), "--stall", "10"], tier, seed, scratch, nshards=6 if thorough else 4, case_timeout=90,
                     label="th", total_timeout=3000)
-    _rekey_crashes(rt, "native-threads")
+    _rekey_crashes(rt, "native-threads", scratch, "th", {"property": PROP, "tier": tier, "seed": seed, "bin": "c19_threads", "args": ["--count", str(n_thr), "--stall", "10"]})
     layers["native_threads"] = _layer_summary(rt)
     for k, n in rt.counters.items():
         res.add_counter(k if k.startswith("threaded") or k.startswith("shared") else "threads:" + k, n)
@@ -294,7 +345,7 @@ def run(tier, seed, scratch, t0):
             sup.run_workers(ra, a_threads, ["--exact", "1", "--count", "60", "--stall", "30"], tier, seed, scratch, nshards=4, case_timeout=240, label="asanth",
                             env_extra=env, total_timeout=3000)
         blocks = _asan_reports(res, logdir, ra)
-        _rekey_crashes(ra, "asan")
+        _rekey_crashes(ra, "asan", scratch, ["asan", "asanth"], {"property": PROP, "tier": tier, "seed": seed, "bin": "c19", "args": []})
         asan.update(_layer_summary(ra))
         asan["report_blocks"] = blocks
         if ra.cases == 0:
@@ -320,7 +371,7 @@ def run(tier, seed, scratch, t0):
             sup.run_workers(rs, t_threads, ["--count", "120", "--stall", "60"], tier, seed, scratch, nshards=4, case_timeout=400, label="tsan",
                             env_extra=env, total_timeout=3000)
             blocks = _tsan_reports(res, logdir)
-            _rekey_crashes(rs, "tsan")
+            _rekey_crashes(rs, "tsan", scratch, "tsan", {"property": PROP, "tier": tier, "seed": seed, "bin": "c19_threads", "args": ["--count", "120", "--stall", "10"]})
             tsan.update(_layer_summary(rs))
             tsan["report_blocks"] = blocks
             if rs.cases == 0:
